@@ -169,6 +169,19 @@ CHECKS["C15"] = dict(
     technique="SMT (z3, linear real arithmetic over symbolic integrands) validation of integral regrouping",
     design="§4 C15", engine="E1")
 
+CHECKS["C24"] = dict(
+    level="translation_validation",
+    text="The real Expr.__call__/_eval and every evaluate() method run on symbolic numbers (term + exact shadow) for "
+         "terminal values and for the derivative requests made to mapped callables; comparisons record branch "
+         "conditions. Per explored path z3 proves (i) every input following the implementation's path takes the same "
+         "branches mathematically and (ii) path condition => returned term == denotation of the *input* expression "
+         "(derivatives by jet arithmetic, conditionals by the selected branch only); further paths are obtained from "
+         "z3 models of negated branch conditions (dynamic symbolic execution). A raise at a point where the value is "
+         "defined is a violation. Expressions reaching math.*/cmath.* concretise and are recorded as outside the claim.",
+    technique="dynamic symbolic execution of the real evaluate methods (symbolic numbers, z3-generated path inputs) + "
+              "SMT (z3 NRA) equality with the denotation per path",
+    design="§4 C24", engine="E1")
+
 TABLE_NOTE = ("Trusted base: vlib/tables.py (SMT-LIB encoding of the relation tables) and z3. The tables are produced "
               "on every run by calling the real operators on every element / pair of the stated finite carrier; the "
               "claim is for that carrier.")
